@@ -385,6 +385,55 @@ func init() {
 		return term(res, resTy)
 	})
 	stdModsets["maps.Clone"] = func(u *Unit) *modset { return &modset{keys: map[string]bool{}, ghosts: map[string]bool{}} }
+	// ---------------- CBOR codec (opaque) ----------------
+	for _, nm := range []string{"github.com/fxamacker/cbor/v2.NewDecoder", "github.com/fxamacker/cbor/v2.NewEncoder"} {
+		nm := nm
+		reg(nm, nm+": returns a new, non-nil codec object", func(fr *Frame, st *State, callee *ssa.Function, args []*Val, pos token.Pos, resTy types.Type) *Val {
+			return term(fr.u.allocRef(st, "cbor"), resTy)
+		})
+	}
+	cborFail := func(fr *Frame, st *State, kind string, err string) {
+		// ghost: number of failed decodes of this kind during the call
+		u := fr.u
+		gk := "cborfail:" + kind
+		u.ghostSort[gk] = "Int"
+		cur := u.ghostOf(st, gk)
+		n := u.w.newConst("cborfail", "Int")
+		u.fact(eq(n, ite(fmt.Sprintf("(distinct (ityp %s) T_nil)", err), fmt.Sprintf("(+ %s 1)", cur), cur)))
+		st.ghost[gk] = n
+	}
+	reg("(*github.com/fxamacker/cbor/v2.Decoder).Decode", "cbor.Decoder.Decode(&v): the target becomes unconstrained; the error is unconstrained; ghost(\"cborfail:stream\") counts the failures", func(fr *Frame, st *State, callee *ssa.Function, args []*Val, pos token.Pos, resTy types.Type) *Val {
+		u := fr.u
+		u.oblige(fr, st, "nil", "cbor", fmt.Sprintf("(distinct %s nil)", args[0].T), pos, "Decode through a nil *cbor.Decoder")
+		fr.havocPointee(st, args[1])
+		e := u.w.newConst("decodeerr", "Iface")
+		for _, f := range u.wfFacts(st, e, resTy, 0) {
+			u.fact(f)
+		}
+		cborFail(fr, st, "stream", e)
+		fr.bumpNow(st)
+		return term(e, resTy)
+	})
+	reg("github.com/fxamacker/cbor/v2.Unmarshal", "cbor.Unmarshal(data, &v): the target becomes unconstrained; the error is unconstrained; ghost(\"cborfail:message\") counts the failures", func(fr *Frame, st *State, callee *ssa.Function, args []*Val, pos token.Pos, resTy types.Type) *Val {
+		u := fr.u
+		fr.havocPointee(st, args[1])
+		e := u.w.newConst("unmarshalerr", "Iface")
+		for _, f := range u.wfFacts(st, e, resTy, 0) {
+			u.fact(f)
+		}
+		cborFail(fr, st, "message", e)
+		fr.bumpNow(st)
+		return term(e, resTy)
+	})
+	reg("(*github.com/fxamacker/cbor/v2.Encoder).Encode", "cbor.Encoder.Encode(v): no effect on modelled memory; the error is unconstrained", func(fr *Frame, st *State, callee *ssa.Function, args []*Val, pos token.Pos, resTy types.Type) *Val {
+		u := fr.u
+		u.oblige(fr, st, "nil", "cbor", fmt.Sprintf("(distinct %s nil)", args[0].T), pos, "Encode through a nil *cbor.Encoder")
+		e := u.w.newConst("encodeerr", "Iface")
+		for _, f := range u.wfFacts(st, e, resTy, 0) {
+			u.fact(f)
+		}
+		return term(e, resTy)
+	})
 	// ---------------- output streams (ghost text) ----------------
 	outModset := func(u *Unit) *modset {
 		u.ghostSort["out"] = "(Array Ref Str)"
@@ -396,6 +445,7 @@ func init() {
 		cur := u.ghostOf(st, "out")
 		ref := fr.refOf(w)
 		n := u.w.newConst("g:out", "(Array Ref Str)")
+		u.fn("strcat", []string{"Str", "Str"}, "Str")
 		u.fact(eq(n, fmt.Sprintf("(store %s %s (strcat (select %s %s) %s))", cur, ref, cur, ref, text)))
 		st.ghost["out"] = n
 	}
@@ -530,6 +580,39 @@ func init() {
 		u.note("json.Unmarshal: every *any cell is havocked (target pointer not tracked precisely)")
 		return term(e, resTy)
 	})
+}
+
+// havocPointee: v is an interface value holding a pointer to a struct (or other) value: the pointee becomes
+// unconstrained (used for decoders that fill their target)
+func (fr *Frame) havocPointee(st *State, v *Val) {
+	u := fr.u
+	done := false
+	for key, t := range u.w.tagTypes {
+		if t == nil {
+			continue
+		}
+		pt, ok := t.Underlying().(*types.Pointer)
+		if !ok || !containsTag(v.T, u.w.tags[key]) {
+			continue
+		}
+		_, ub := u.w.boxFn("Ref")
+		ref := fmt.Sprintf("(%s (ival %s))", ub, v.T)
+		if at, isArr := pt.Elem().Underlying().(*types.Array); isArr {
+			u.havocHeap(st, u.regA(at.Elem()), true, nil)
+			done = true
+			continue
+		}
+		hk := u.regT(pt.Elem())
+		nv := u.w.newConst("decoded", u.w.sortOf(pt.Elem()))
+		for _, f := range u.wfFacts(st, nv, pt.Elem(), 0) {
+			u.fact(f)
+		}
+		st.heap[hk] = u.nameHeap(hk, fmt.Sprintf("(store %s %s %s)", u.heapOf(st, hk), ref, nv))
+		done = true
+	}
+	if !done {
+		u.note("decode into a target of unknown static type: effect on the target not modelled")
+	}
 }
 
 func containsTag(term string, tag string) bool {
